@@ -138,6 +138,11 @@ def cases(tier, seed):
     cs.append({'kind': 'helpers'})
     cs.append({'kind': 'reject'})
     cs.append({'kind': 'dw_identity'})
+    # the repository's own tests under the in-situ "every built-in cost function call is finite and
+    # non-negative" contract (real layer descriptions, relaxed counts moved by a real optimiser)
+    from vf import suitewl
+    cs += suitewl.cases(tier, slow_in_quick=('test_pit_search.py::TestPITSearch::test_combined_loss_regression',
+                                             'test_combined_loss_layer'))
     return cs
 
 
@@ -408,5 +413,11 @@ def run_dw_identity(case, ctx):
 
 
 def run_case(case, ctx):
+    if case.get('kind') == 'repo-suite':
+        from vf import suitewl
+        from vf.mon import insitu
+        insitu.install_costfn_value(ctx)
+        suitewl.run(case, ctx, ('c16.insitu_costfn_value',))
+        return
     {'sweeps': run_sweeps, 'fractional': run_fractional, 'helpers': run_helpers,
      'reject': run_reject, 'dw_identity': run_dw_identity}[case['kind']](case, ctx)
